@@ -31,7 +31,7 @@ EXPLANATION = (
     'checked. R6 after a failed validation the connection is reset and re-established by the one self-healing path (C07.R2 + C07.R3 re-evaluated).'
 )
 ASSUMPTIONS = ["int.to_bytes(length, byteorder) as documented", "CRC-16 with generator x^16+x^15+x^2+1 detects all single/double-bit errors (for these frame lengths) and all bursts <= 16 bits (textbook property)"]
-FLOORS = {"C06.R1": 256, "C06.R2": 19, "C06.R3": 2, "C06.R4": 6, "C06.R5": 4, "C06.R6": 1}
+FLOORS = {"C06.R1": 256, "C06.R2": 19, "C06.R3": 2, "C06.R4": 6, "C06.R5": 4, "C06.R6": 1, "C06.R7": 1}
 
 CRC = "pyairtouch.comms.crc16"
 
@@ -51,8 +51,10 @@ def run(ctx):
     r3(ctx)
     r4(ctx)
     r5(ctx)
-    from . import c07
+    from . import c07, c17
     from .common import reuse
+
+    reuse(ctx, "C06.R7", [c07.r5, c07.r9, c17.r2], "the reset after a rejected frame acts on a consistent connection state and the reader that replaces it is running: is_connected holds exactly while a writer is stored, the read loop is scheduled as soon as the socket is connected, and a failed decode returns no-message (which resets) instead of reading on (C07.R5, C07.R9, C17.R2)")
 
     reuse(ctx, "C06.R6", [c07.r1, c07.r2, c07.r3], "after a rejected frame the connection is reset and re-established (C07.R2 reset = disconnect + reconnect, C07.R3 failed attempts are retried)")
 
